@@ -1264,8 +1264,18 @@ func c03RoundE(c *Ctx, w *World) {
 		st := w.Struct(uconPkg, "VotesManager")
 		staT := w.Named(uconPkg, "VoteSta")
 		loaded := map[string]bool{}
-		for _, in := range allInstrs(cl) {
-			if fa, ok := in.(*ssa.FieldAddr); ok {
+		scope := []*ssa.Function{cl}
+		for _, ci := range callInstrs(cl) {
+			if g := ci.Common().StaticCallee(); g != nil && g.Pkg == cl.Pkg && g.Blocks != nil {
+				scope = append(scope, g) // a helper that lists or clears the containers
+			}
+		}
+		var instrs []ssa.Instruction
+		for _, g := range scope {
+			instrs = append(instrs, allInstrs(g)...)
+		}
+		for _, in := range instrs {
+			if fa, ok := in.(*ssa.FieldAddr); ok && types.Identical(deref(fa.X.Type()), w.Named(uconPkg, "VotesManager")) {
 				if f := fieldOfAddr(fa); f != nil {
 					for _, r := range *fa.Referrers() {
 						if u, isU := r.(*ssa.UnOp); isU && u.Op == token.MUL {
@@ -1276,9 +1286,11 @@ func c03RoundE(c *Ctx, w *World) {
 			}
 		}
 		clears := 0
-		for _, ci := range callInstrs(cl) {
-			if o := calleeObj(ci); o != nil && o.Name() == "clear" && recvName(o) == "VoteSta" {
-				clears++
+		for _, g := range scope {
+			for _, ci := range callInstrs(g) {
+				if o := calleeObj(ci); o != nil && o.Name() == "clear" && recvName(o) == "VoteSta" {
+					clears++
+				}
 			}
 		}
 		var missing []string
@@ -1371,7 +1383,18 @@ func c03RoundE(c *Ctx, w *World) {
 					}
 					return false
 				}
-				if !leaf(ret.Results[len(ret.Results)-1]) {
+				rv := ret.Results[len(ret.Results)-1]
+				okRet := leaf(rv)
+				if cv, isC := stripConvNoBind(rv).(*ssa.Const); isC && cv.IsNil() {
+					// an explicit nil: only where the check is known to have succeeded
+					okRet = false
+					for _, a := range atomsOf(factsAt(b)) {
+						if a.Kind == "isnil" && stripConvNoBind(a.X) == ssa.Value(ver) && a.Truth {
+							okRet = true
+						}
+					}
+				}
+				if !okRet {
 					bad = w.Pos(ret.Pos())
 				}
 			}
